@@ -193,13 +193,27 @@ def judge(case, info, real, ans):
 
 
 def judge_error_task(case, real, ans):
-    """error responses (ErrorTask) always close and must say so, once"""
+    """error responses (ErrorTask) always close and must say so, once; the client of a HEAD
+    request finds no body and nothing left over"""
     n, left, resps = parse_answer(ans)
     if case["disc"] is not None or not T.wire_of(real):
         return None
     if n != 1 or left:
         return ("client cannot parse the error response", "one complete response", "n=%d left=%r" % (n, left[:40]), None)
     r = resps[0]
+    # the body: Error.to_response's text, exactly Content-Length bytes -- none when the request was a HEAD
+    # (fix 7243240; the head still announces the length the body would have)
+    cls = [v for k, v in r["fields"] if k.lower() == b"content-length"]
+    if len(cls) != 1 or not cls[0].isdigit():
+        return ("error response without exactly one decimal Content-Length", "one", repr(cls), None)
+    if case["req"]["head"]:
+        if r["fr"] != "N" or r["body"]:
+            return ("error response to HEAD carries a body", "FNoBody", r["fr"], None)
+    else:
+        if r["fr"] != "L%d" % int(cls[0]) or len(r["body"]) != int(cls[0]):
+            return ("error response body differs from the announced Content-Length", "L" + cls[0].decode(), "%s/%d" % (r["fr"], len(r["body"])), None)
+        if not r["body"].endswith(b")") or b"(generated by " not in r["body"]:
+            return ("error response body is not Error.to_response's text", "... (generated by <ident>)", repr(r["body"][-40:]), None)
     conn_vals = [v.lower() for k, v in r["fields"] if k.lower() == b"connection"]
     if real["close"] != "1":
         return ("error response but the connection is kept", "close", "keep", None)
@@ -244,6 +258,10 @@ def run(ctx):
             continue
         if case["req"]["err"] is not None:
             idx.append((i, None))
+        elif real["s500"] == "1" and case["disc"] is None:
+            # the ladder's 500 for an application that failed before any output: an error response
+            # like ErrorTask's (to a HEAD request: no body, fix 52947ac)
+            idx.append((i, None))
         else:
             ok, info = in_quantifier(case)
             if not ok:
@@ -287,7 +305,7 @@ def run(ctx):
         "evaluations": len(cases),
         "client_parses": len(queries),
         "distinct_nontrivial": len(nontrivial),
-        "rule": "non-trivial = distinct (framing, close, version, Connection, HEAD, body, number of fields) of responses the client parsed from the real wire; the decision table method{GET,HEAD} x version{1.0,1.1,2.0} x Connection{absent,close,keep-alive,Keep-Alive,CLOSE,upgrade} x status{200,204,304,100} x Content-Length{absent,exact,larger,smaller,zero} x 18 iterable/write shapes (incl. write(b"") and write() before a seekable / non-seekable file wrapper) is enumerated completely",
+        "rule": "non-trivial = distinct (framing, close, version, Connection, HEAD, body, number of fields) of responses the client parsed from the real wire; the decision table method{GET,HEAD} x version{1.0,1.1,2.0} x Connection{absent,close,keep-alive,Keep-Alive,CLOSE,upgrade} x status{200,204,304,100} x Content-Length{absent,exact,larger,smaller,zero} x 18 iterable/write shapes (incl. write(b"") and write() before a seekable / non-seekable file wrapper) is enumerated completely, and so is the error table error class{400,413,431,501} x method{GET,HEAD} x version x Connection x connection_close and the ladder-500 table (5 ways of failing before output x method{GET,HEAD} x version x Connection x connection_close x expose_tracebacks)",
         "samples": samples,
         "framing_distribution": dist,
         "outside_quantifier": outside,
@@ -300,7 +318,7 @@ def replay(data):
     if data.get("kind") == "search":
         ctx_runner = vcommon.Runner(vcommon.build_runner("task", "ExtTask.v")[0])
         ans = ctx_runner.query(["parse %s %s" % ("1" if case["req"]["head"] else "0", hexb(T.wire_of(real)))])[0]
-        if case["req"]["err"] is not None:
+        if case["req"]["err"] is not None or (real["s500"] == "1" and case["disc"] is None):
             v = judge_error_task(case, real, ans)
         else:
             ok, info = in_quantifier(case)
